@@ -1599,6 +1599,16 @@ func Restrict(t *Term, pc *Term) *Term {
 		if v, ok := eqSubst[t.id]; ok {
 			return v
 		}
+		if t.Sort == BoolS {
+			switch truth(t) {
+			case 1:
+				memo[t.id] = True
+				return True
+			case -1:
+				memo[t.id] = False
+				return False
+			}
+		}
 		var r *Term
 		switch {
 		case t.Op == "ite":
